@@ -388,8 +388,24 @@ func (s *slicer) resolveLoad(u *ssa.UnOp, k int, depth int) *prov {
 	case *ssa.IndexAddr:
 		// element of a slice: provenance of the slice, marked as element
 		base := s.resolve(a.X, k, depth+1)
-		if base.Kind == "glob" {
-			return &prov{Kind: "globelem", Args: base.Args}
+		// the matches of a glob, possibly handed back by a helper of the repository
+		for g := base; g != nil; {
+			if g.Kind == "glob" {
+				return &prov{Kind: "globelem", Args: g.Args}
+			}
+			if g.Kind == "call" {
+				var real []*prov
+				for _, x := range g.Args {
+					if !(x.Kind == "const" && (x.Name == "" || x.Name == "nil")) {
+						real = append(real, x)
+					}
+				}
+				if len(real) == 1 {
+					g = real[0]
+					continue
+				}
+			}
+			break
 		}
 		return &prov{Kind: "elem", Args: []*prov{base}}
 	case *ssa.FieldAddr:
@@ -1419,7 +1435,28 @@ func isGlobResult(v ssa.Value) bool {
 		return false
 	}
 	call, ok := ex.Tuple.(*ssa.Call)
-	return ok && isFn(staticCallee(&call.Call), "path/filepath", "Glob")
+	if !ok {
+		return false
+	}
+	if isFn(staticCallee(&call.Call), "path/filepath", "Glob") {
+		return true
+	}
+	// a helper of the repository that hands back what Glob returned
+	if H := staticFn(&call.Call); H != nil && len(H.Blocks) > 0 && load.InModule(load.FnPkgPath(H)) {
+		n, all := 0, true
+		allInstrs(H, func(in ssa.Instruction) {
+			r, ok := in.(*ssa.Return)
+			if !ok || len(r.Results) == 0 {
+				return
+			}
+			n++
+			if !isGlobResult(r.Results[0]) {
+				all = false
+			}
+		})
+		return n > 0 && all
+	}
+	return false
 }
 
 func globLen(b *ssa.BinOp) (int64, bool) {
@@ -1742,9 +1779,34 @@ func dominatingRead(fn *ssa.Function, pathV ssa.Value, site ssa.Instruction) *ss
 		f := staticCallee(&call.Call)
 		if (isFn(f, "os", "ReadFile") || isFn(f, "os", "Open")) && call.Call.Args[0] == pathV && instrDominates(call, site) {
 			read = call
+			return
+		}
+		// the read sits in a helper of the repository that is handed the path
+		if H := staticFn(&call.Call); H != nil && len(H.Blocks) > 0 && load.InModule(load.FnPkgPath(H)) && instrDominates(call, site) {
+			for i, a := range call.Call.Args {
+				if a == pathV && i < len(H.Params) && readsParamPath(H, i) {
+					read = call
+				}
+			}
 		}
 	})
 	return read
+}
+
+// readsParamPath: H reads the file named by its parameter i (os.ReadFile / os.Open in its entry region).
+func readsParamPath(H *ssa.Function, i int) bool {
+	found := false
+	allInstrs(H, func(in ssa.Instruction) {
+		call, ok := in.(*ssa.Call)
+		if !ok {
+			return
+		}
+		f := staticCallee(&call.Call)
+		if (isFn(f, "os", "ReadFile") || isFn(f, "os", "Open")) && call.Call.Args[0] == ssa.Value(H.Params[i]) {
+			found = true
+		}
+	})
+	return found
 }
 
 // writeContexts returns where to judge ws (see writeCtx).
